@@ -11,7 +11,7 @@
 //	   (rejected points are not repeated for the longest programs, see the rule string).
 //	   Factory family: call(F) / call(wrapper->F) for 8 CREATE/CREATE2 factories with gas limits up to 2*10^7 and an exact
 //	   expected gas figure from the gas schedule; frame-level "no gas minted" accounting on every evaluation.
-//	path=commitBlock: the empty block, every single and every ordered pair of a 22-entry transaction menu (both forks),
+//	path=commitBlock: the empty block, every single and every ordered pair (incl. the same tx twice) of a 24-entry transaction menu (both forks), the same tx in two consecutive blocks,
 //	   each under the header gas limits {big, g2, g1+g2-1, used1+g2, used1+g2-1} that force pool exhaustion on the second.
 //
 // Oracle: DESIGN.md appendix A.6 (see notes.go for the exact reading and the findings).
@@ -85,6 +85,9 @@ func sigsOf(rc replayCase) ([]finding, string) {
 		}
 		res := evalTx(buildPre(prog), spec, tx, c)
 		return res.finds, res.obs
+	case "consecutiveBlocks":
+		executed, finds := checkConsecutive(rc.Block.Fork, rc.Block.Txs[0])
+		return finds, fmt.Sprintf("first block executed the transaction: %v", executed)
 	case "commitBlock":
 		bw.cache = sync.Map{}
 		b, finds := checkBlock(*rc.Block)
@@ -173,6 +176,13 @@ func (a *agg) record(res *txResult) {
 			a.n["factory_exact_gas_figures_checked"]++
 		}
 	}
+	if res.collision {
+		a.n["applytx_creation_collisions_executed"]++
+		a.n["applytx_creation_collisions_executed:"+senderNames[s.Sender]]++
+	}
+	if res.creatorChecks > 0 {
+		a.n["applytx_creator_nonce_checks"] += int64(res.creatorChecks)
+	}
 	if res.creates > 0 {
 		a.n["applytx_create_steps_frame_gas_checked"] += int64(res.creates)
 	}
@@ -240,11 +250,15 @@ func main() {
 		"SELFDESTRUCT to another account, INVALID (burn all gas), SSTORE set, SSTORE clear (refund), STATICCALL-into-writer then write, CALL(each of the 9 one-action leaf contracts) with value 3}; P and the "+
 		"leaves hold value and a set storage slot in the pre-state. Stated exceptions (all counted): points whose 'balance-fee' would be negative are skipped; points that the checker's reference "+
 		"pre-check classifies as rejected are enumerated for creations with one-action init codes and for calls into programs of <= 2 actions only (a rejection never reads the target). "+
-		"Factory family (same path): call(F) and call(wrapper that CALLs F with all gas) for the 8 fixed factories F = {CREATE, CREATE2} x init code {empty, deploying one byte, burning (INVALID), reverting}, endowment 1, x fork x "+
-		"sender x value{0,1} x gasLimit{intrinsic+40000, 200000, 8*10^6, 2*10^7} x price{0,1,10^9}, correct nonce, pool 25*10^6 (1536 points); on the direct calls the gas used must equal the figure the checker computes from the gas schedule. "+
+		"Factory family (same path): call(F) and call(wrapper that CALLs F with all gas) for 11 fixed factories: F = {CREATE, CREATE2} x init code {empty, deploying one byte, burning (INVALID), reverting}, endowment 1, plus "+
+		"CREATE2 twice with the same salt (empty / deploying init code: the second collides) and CREATE into an address occupied in the genesis; x fork x sender x value{0,1} x gasLimit{intrinsic+40000, 200000, 8*10^6, 2*10^7} x "+
+		"price{0,1,10^9}, correct nonce, pool 25*10^6 (2112 points); on the direct calls into the 8 single-creation factories the gas used must equal the figure the checker computes from the gas schedule; every pre-existing "+
+		"contract's nonce must advance by exactly the number of creation steps it performed in surviving frames. "+
+		"Collision family (same path): creation transactions from two senders whose CreateAddress(sender, nonce) is occupied in the genesis (by an account with code / with only a non-zero nonce) x fork x nonce{cur-1,cur,cur+1} x "+
+		"value{0,1} x gasLimit{intrinsic, intrinsic+30000, 10^6} x price{0,1,10^9} x init code{[SSET],[CREATE]} (432 points). "+
 		"On every executed frame of every evaluation: the frame's gas never rises between two of its steps and falls by >= the CREATE price + the init code's consumption after CREATE/CREATE2 (no gas minted across a child frame). "+
-		"path=commitBlock: the empty block, all singles and all ordered pairs of a 22-entry transaction menu (valid transfer/call/create/burn, next nonce, and one transaction per rejection class, for a rich and "+
-		"a poor sender) per fork, each under the header gas limits {10^7, g2, g1+g2-1, used1+g2, used1+g2-1} (singles {10^7, g1, g1-1}). "+
+		"path=commitBlock: the empty block, all singles and all ordered pairs INCLUDING the same signed transaction twice, of a 24-entry transaction menu (valid transfer/call/create/burn, next nonce, and one "+
+		"transaction per rejection class, for a rich and a poor sender; a creation into an occupied address for each collider sender) per fork, each under the header gas limits {10^7, g2, g1+g2-1, used1+g2, used1+g2-1} (singles {10^7, g1, g1-1}); and, per menu entry and fork, two CONSECUTIVE blocks that both contain the same signed transaction (second block compared with an empty second block). "+
 		"Each evaluation runs the real ApplyTransaction / commitBlock on a copy of the real chain's head state (genesis with staking contract and validator) and sums ALL account leaves of the state trie. "+
 		"distinct_nontrivial = distinct (transaction class, set of action opcodes that really executed in that evaluation, outcome class incl. rejection class / left-over gas purchase / value destroyed / "+
 		"refund granted / refund cap binding); for blocks distinct (fork, accept/reject pattern with classes, tight header limit, value destroyed). Every evaluation reaches TransitionDb of the real code.")
@@ -280,9 +294,7 @@ func main() {
 		}
 		for i := 0; i < nMenu; i++ {
 			for j := 0; j < nMenu; j++ {
-				if i != j {
-					units = append(units, unit{f, []int{i, j}})
-				}
+				units = append(units, unit{f, []int{i, j}}) // i == j: the same signed transaction twice in one block
 			}
 		}
 	}
@@ -324,6 +336,17 @@ func main() {
 			if nAcc > 0 && nRej > 0 {
 				a.n["block_mixing_accepted_and_rejected"]++
 			}
+			if len(un.idxs) == 2 && un.idxs[0] == un.idxs[1] {
+				a.n["block_same_tx_twice"]++
+				if nAcc == 1 && b.rejOf[1] == "nonce-too-low" {
+					a.n["block_same_tx_twice_second_refused_nonce_too_low"]++
+				}
+			}
+			for i, cls := range b.rejOf {
+				if cls == "" && bw.menus[un.fork][un.idxs[i]].m.Sender >= 2 {
+					a.n["block_creation_collisions_executed"]++
+				}
+			}
 			if nAcc == 2 {
 				a.n["block_two_executed"]++
 			}
@@ -339,6 +362,20 @@ func main() {
 	if doneBlocks < int64(len(units)) {
 		r.NotExhaustive(fmt.Sprintf("deadline: %d of %d block units of path=commitBlock finished", doneBlocks, len(units)))
 	}
+	// the same signed transaction in two consecutive blocks
+	par.For(int64(nForks*nMenu), 1, r.Expired, func(u int64) {
+		fork, idx := int(u)/nMenu, int(u)%nMenu
+		executed, finds := checkConsecutive(fork, idx)
+		r.Add("evaluations", 1)
+		r.Add("consecutive_block_cases", 1)
+		if executed {
+			r.Add("consecutive_block_cases_first_executed", 1)
+		}
+		r.Distinct("distinct_nontrivial", fmt.Sprintf("C|%s|%s|executed-first=%v", forkNames[fork], bw.menus[fork][idx].m.Name, executed))
+		for _, f := range finds {
+			note(f.sig, f.what, int64(3)<<40|u, replayCase{Path: "consecutiveBlocks", Block: &blockCase{Path: "consecutiveBlocks", Fork: fork, Txs: []int{idx}, Names: []string{bw.menus[fork][idx].m.Name}, H: hBig}})
+		}
+	})
 	r.Set("phase_commitBlock_wall_s", time.Since(tPhase).Seconds())
 	tPhase = time.Now()
 	// ------------------------------------------------------------------ path = ApplyTransaction, factory family
@@ -346,9 +383,6 @@ func main() {
 	// x price{0,1,10^9}, correct nonce, pool 25*10^6.
 	{
 		fr := []int{nPrices, len(factoryGasNames), 2, nSenders, nForks, 2, nFactories}
-		pre := buildPre(nil)
-		var preMu sync.Mutex
-		_ = preMu
 		nF := par.Product(fr)
 		doneF := par.For(nF, 16, r.Expired, func(i int64) {
 			d := make([]int, len(fr))
@@ -359,13 +393,37 @@ func main() {
 				return
 			}
 			a := newAgg()
-			res := evalTx(pre, spec, tx, c)
+			res := evalTx(buildPre(nil), spec, tx, c)
 			a.record(res)
 			for _, f := range res.finds {
 				note(f.sig, f.what, int64(1)<<39|i, replayCase{Path: "ApplyTransaction", Tx: &spec})
 			}
 			a.flush()
 		})
+		// collision family: creation transactions from the two senders whose derived address is occupied in the genesis
+		cr := []int{nPrices, 3, 2, nNonces, 2, nForks, 2}
+		nC := par.Product(cr)
+		collProgs := [][]int{{aSSet}, {aCreate}}
+		doneC := par.For(nC, 8, r.Expired, func(i int64) {
+			d := make([]int, len(cr))
+			par.MixedRadix(i, cr, d)
+			spec := txSpec{Path: "ApplyTransaction", Fork: d[5], Sender: 2 + d[4], Nonce: d[3], Value: d[2], Gas: 1 + d[1], Price: d[0], Target: tCreate, Prog: collProgs[d[6]]}
+			tx, c, ok := spec.build()
+			if !ok {
+				return
+			}
+			a := newAgg()
+			res := evalTx(buildPre(nil), spec, tx, c)
+			a.record(res)
+			for _, f := range res.finds {
+				note(f.sig, f.what, int64(1)<<38|i, replayCase{Path: "ApplyTransaction", Tx: &spec})
+			}
+			a.flush()
+		})
+		r.Set("collision_points", nC)
+		if doneC < nC {
+			r.NotExhaustive(fmt.Sprintf("deadline: %d of %d points of the collision family finished", doneC, nC))
+		}
 		if doneF < nF {
 			r.NotExhaustive(fmt.Sprintf("deadline: %d of %d points of the factory family finished", doneF, nF))
 		}
@@ -490,6 +548,12 @@ func main() {
 	}
 	r.Require(r.DistinctCount("factory_x_gas_x_depth_combinations_executed") == nFactories*len(factoryGasNames)*2 || r.Expired(),
 		"not every (factory, gas limit, direct/wrapped) combination executed")
+	r.Require(r.Get("applytx_creation_collisions_executed:collider-code") > 0 && r.Get("applytx_creation_collisions_executed:collider-nonce") > 0,
+		"no creation transaction ran into an occupied address (account with code / with only a nonce)")
+	r.Require(r.Get("applytx_creator_nonce_checks") > 0, "no contract's nonce advance was compared with its creation steps")
+	r.Require(r.Get("block_creation_collisions_executed") > 0, "no block executed a creation into an occupied address")
+	r.Require(r.Get("block_same_tx_twice_second_refused_nonce_too_low") > 0, "no block offered an executed transaction a second time")
+	r.Require(r.Get("consecutive_block_cases_first_executed") > 0, "no pair of consecutive blocks offered an executed transaction again")
 	r.Require(r.Get("factory_exact_gas_figures_checked") > 0, "no exact gas figure was checked")
 	r.Require(r.Get("applytx_create_steps_frame_gas_checked") > 0, "no CREATE/CREATE2 step had its frame gas accounting checked")
 	r.Require(r.Get("applytx_value_destroyed_by_selfdestruct_to_self") > 0, "no execution destroyed value by self-destruct-to-self")
